@@ -232,7 +232,47 @@ class Script:
         return "\n".join(self.lines + ["E"]) + "\n"
 
 
-def from_model(hist, sid, L, consts, rnd, twin=True):
+DETOURS = ["count-fail", "count-partial-fail", "asm-fail", "count-ok", "count-fail", "other-instance", "asm-ok", "count-partial-fail", "chunk-toggle", "debug-toggle", "count-fail"]
+
+
+def detour(sc, i, kind, L, rnd):
+    """operations that must not influence a later call once the offset is set again (C15): inserted in front of the final
+    call of a model transition; the caller restores the offset afterwards"""
+    st = sc.state[i]
+    ok = [L.bylen[k][0] for k in sorted(L.bylen)[:4]]
+    bad = L.bad[0]
+    c = rnd.choice([5, 7, 8, 11])
+    if kind == "count-fail":
+        sc.asm(i, [bad], [L.text[bad]], count=c)
+    elif kind == "count-partial-fail":
+        keys = [ok[1], ok[0], bad]
+        sc.asm(i, keys, [L.text[k] for k in keys], count=c)
+    elif kind == "asm-fail":
+        keys = [ok[0], bad, ok[1]]
+        sc.asm(i, keys, [L.text[k] for k in keys])
+    elif kind == "count-ok":
+        keys = [ok[2], ok[0]]
+        sc.asm(i, keys, [L.text[k] for k in keys], count=c)
+    elif kind == "asm-ok":
+        keys = [ok[1], ok[3]]
+        sc.asm(i, keys, [L.text[k] for k in keys])
+    elif kind == "other-instance":
+        j = 4
+        sc.create(j, "ext", 64)
+        sc.opt(j, "all", rnd.choice(["STRICT", "NASM"]))
+        sc.asm(j, [ok[0]], [L.text[ok[0]]])
+        sc.destroy(j)
+    elif kind == "chunk-toggle":
+        fit = st["fit"]
+        sc.chunk(i, rnd.choice([6, 9, 13]))
+        sc.asm(i, [ok[2]], [L.text[ok[2]]])
+        sc.chunk(i, fit)
+    elif kind == "debug-toggle":
+        sc.lines.append("G %d 1" % i); sc.meta.append({})
+        sc.lines.append("G %d 0" % i); sc.meta.append({})
+
+
+def from_model(hist, sid, L, consts, rnd, twin=True, detour_kind=None):
     """concretise one model transition (path + final action): caps keep their distance to the reserve"""
     dT = 20 - int(consts["T"])
     sc = Script(sid)
@@ -258,6 +298,12 @@ def from_model(hist, sid, L, consts, rnd, twin=True):
                 return None
             st = sc.state.get(i)
             known = st is not None and st["off"] is not None
+            if detour_kind and k == n - 1:
+                if not (known and st["ext"]):
+                    return None
+                saved = st["off"]
+                detour(sc, i, detour_kind, L, rnd)
+                sc.offset(i, saved)
             sc.asm(i, keys, [L.text[x] for x in keys], count=op.get("c") if op["op"] == "count" else None, twin=twin and known and k == n - 1)
     if hist and hist[-1]["op"] == "create":
         for j in sorted(sc.state):
@@ -495,6 +541,16 @@ def run(prop, tier, replay=None):
                 sc = from_model(trs[k], "%s-%d" % (mname, k), L, consts, rnd)
                 if sc is not None:
                     scripts.append(sc)
+            if prop == "C15":
+                # the same transitions with a detour in front of the final call: the model identifies the states before and
+                # after the detour, so only a replay can show that the code does too
+                pick = idx if tier == "thorough" else idx[:: max(1, len(idx) // 2500)]
+                for k in pick:
+                    if trs[k] and trs[k][-1]["op"] in ("asm", "count"):
+                        dk = DETOURS[k % len(DETOURS)]
+                        sc = from_model(trs[k], "%s-%d+%s" % (mname, k, dk), L, consts, rnd, detour_kind=dk)
+                        if sc is not None:
+                            scripts.append(sc)
         nrand = nq if tier == "quick" else nt
         for k in range(nrand):
             scripts.append(random_history("%s-r%d" % (prop, k), L, rnd, flavour))
